@@ -476,14 +476,14 @@ def cases(tier):
     add("case_dataframe", "dataframe_n3", n=3, opts=dict(weight=30))
     add("case_track", "track_n3", n=3, opts=dict(weight=30))
     add("case_at_points", "atpoints_lat_n3", n=3, m=-1, nlat=2, opts=dict(weight=60))
-    # direction variables: concrete (irregular) longitude grid and time weight in the quick tier, symbolic in thorough
-    add("case_at_points", "atpoints_direction_n3_t14", n=3, m=1, direction=True, tt_const=(1, 4), concrete_grid=True,
-        opts=dict(weight=60))
-    add("case_at_points", "atpoints_direction_n3_t34", n=3, m=-2, direction=True, tt_const=(3, 4), concrete_grid=True,
-        opts=dict(weight=60))
+    # direction variables (periodic data): fully symbolic longitude grid, target and time weight
+    add("case_at_points", "atpoints_direction_n3", n=3, m=1, direction=True, opts=dict(weight=60))
+    add("case_at_points", "atpoints_direction_n3_m-2", n=3, m=-2, direction=True, opts=dict(weight=60))
+    add("case_at_points", "atpoints_direction_lat_n3", n=3, m=1, nlat=2, direction=True, opts=dict(weight=80))
+    add("case_at_points", "atpoints_direction_n3_concrete_grid", n=3, m=-2, direction=True, tt_const=(3, 4),
+        concrete_grid=True, opts=dict(weight=60))
     if not q:
-        add("case_at_points", "atpoints_direction_n3_t14_symgrid", n=3, m=1, direction=True, tt_const=(1, 4),
-            opts=dict(weight=60, case_timeout_s=1700))
-        add("case_at_points", "atpoints_direction_n3", n=3, m=1, direction=True,
-            opts=dict(weight=100, check_timeout_ms=200000, case_timeout_s=1700))
+        add("case_at_points", "atpoints_direction_n4", n=4, m=2, direction=True, opts=dict(weight=100, case_timeout_s=1700))
+        add("case_at_points", "atpoints_direction_lat_n4", n=4, m=-1, nlat=2, direction=True,
+            opts=dict(weight=100, case_timeout_s=1700))
     return cs
